@@ -124,6 +124,36 @@ M = {
  "C14-w4m2": ("allowed entries that are a top-level OR are expanded before being refused", "an entry 'Zed OR (AND of k OR groups)': 2^k work in the allowed-list argument"),
  "C15-w4m1": ("removed bytes counted as 9 although only 8 leave the buffer when '+' follows a rewritten EXCEPTION id", "an exception with -or-later+ and a later unknown id"),
  "C15-w4m2": ("offsets derived from uint8 counters of rewrites / folds", ">= 256 rewritten X-or-later ids before an unknown id"),
+ "C01-w5m1": ("normalizeLicense's '+' look-ahead replaced by exp.read(\"+\"), which consumes the '+' even when the deprecated-id fallback is taken", "bzip2-1.0.5+ (the only deprecated-only id inside a version family) against bzip2-1.0.6"),
+ "C01-w5m2": ("rangesAreCompatible looks up only the first id's range and searches that family for the second id unsimplified", "AGPL on both sides, both with '+', the allowed entry spelled -or-later (a single-term rule: C02's subject)"),
+ "C02-w5m1": ("the '+' after a deprecated id without an -or-later twin is swallowed by the scanner", "bzip2-1.0.5+ vs bzip2-1.0.6"),
+ "C02-w5m2": ("both-'+' comparison asks a group lookup that skips simplifyLicense", "AGPL-x+ / AGPL-x-or-later on both sides"),
+ "C03-w5m1": ("generic syntax errors report an offset computed from token lengths; an X+ of a GNU family is one token 8 bytes longer than typed", "GPL-2.0+ (MIT), LGPL-2.1+ : — fewer than 8 bytes behind the offending token: index out of range"),
+ "C03-w5m2": ("ExtractLicenses drops deprecated spellings whose replacement was extracted, taken as licenses[index+1] of the version group", "bzip2-1.0.5 (one-element group) beside any plain -only id"),
+ "C04-w5m1": ("id lists replaced by a map keyed by a case-folding FNV-1a/32 hash; the stored id is never compared with the query", "a word that collides with a listed id (jicefox = MIT): probability 1.7e-7 per random word"),
+ "C04-w5m2": ("the generated tables are built once and the getters return the shared slice", "a caller writes into a getter's result; afterwards valid ids are invalid for every entry point"),
+ "C05-w5m1": ("parseLicenseRef calls itself after DocumentRef-x ':'", "DocumentRef-a:DocumentRef-b:LicenseRef-c"),
+ "C05-w5m2": ("the -or-later rewrite drops the byte after the suffix unless it is ')'", "a stray byte (tab, '!', ':', '(' …) glued to a rewritten X-or-later"),
+ "C06-w5m1": ("ExtractLicenses de-duplicates nodes by (first, hasPlus, second) without the node kind", "X WITH E beside DocumentRef-X:LicenseRef-E"),
+ "C06-w5m2": ("natural-order comparator (digit runs by value) + neighbour-only dedup", "LicenseRef-v1 AND LicenseRef-v01 AND LicenseRef-v1"),
+ "C07-w5m1": ("a nodes[:0] filter in isCompatible compacts the shared allowed array", "a matched WITH licence, then a licence whose only entry sat in the first k sorted slots"),
+ "C07-w5m2": ("lists of >= 16 entries take an indexed path that skips alternatives whose licence is not literally in the set", "MIT+ against MIT (same id, other '+' state) in a list of >= 16 entries"),
+ "C08-w5m1": ("for X WITH a, X WITH b adjacent in the sorted list, the range check is assumed done for the previous entry", "the same id with two exceptions in the list, the expression in the other spelling with the later exception"),
+ "C08-w5m2": ("a single-licence expression byte-identical to an allowed entry returns true before the list is validated", "the literal spelling in a list that also holds an invalid entry"),
+ "C09-w5m1": ("the -or-later rewrite replaces the first '-or-later' of the scanned prefix", "a listed GNU X-or-later typed in exact lower case before a rewritten id; re-casing it flips validity"),
+ "C09-w5m2": ("literal fast path in Satisfies skips validation of the other entries", "an expression typed exactly like an entry, beside an invalid entry; another letter case gets the error"),
+ "C10-w5m1": ("appendTerms carves rows of >= 64-row products out of one array; flatten reuses the first row's storage", "a product of wide ORs whose operands are written in a particular unsorted order: ExtractLicenses loses an id"),
+ "C10-w5m2": ("rows needing more 'distinct licences' than the list has entries are skipped; X WITH e sorts between X and X-only", "X, X WITH e and X-only in one AND row against a list of exactly the needed size"),
+ "C11-w5m1": ("isCompatible resumes its scan of the sorted list at the last literal hit", "a look-alike id (CC-BY-3.0-AT) literally allowed, beside a member reached only by an earlier X-v1+ entry"),
+ "C11-w5m2": ("alternatives that 'extend' a kept one are dropped, judged by a string prefix without separator", "X-v1 OR (X-v1+ AND Y) against [X-v2, Y]"),
+ "C12-w5m1": ("allowed lists of > 16 entries lose case-insensitive duplicates before parsing", "a valid 'X WITH e' and later the same text in lower case (invalid: 'with' is no operator)"),
+ "C12-w5m2": ("the scanner accepts AdditionRef-<word> as an exception token", "MIT WITH AdditionRef-foo"),
+ "C13-w5m1": ("getLicenseRange keeps an atomic 'group of the previous hit' and loads it twice", "two goroutines comparing ids of one family at the same moment"),
+ "C13-w5m2": ("activeLicense searches round the list from the previous hit, -1 before the first", "the last table entry as the very first id a fresh process looks up"),
+ "C14-w5m1": ("absorption pruning with a backtracking subsequence test", "two alternatives repeating one id 13 / 26 times, the shorter with one extra id sorting last"),
+ "C14-w5m2": ("the expression is expanded before the allowed list is checked", "a refused call (empty / invalid list) on an AND of >= 17 OR groups"),
+ "C15-w5m1": ("one scanner stream reused for all allowed entries; 'removed' is not reset", "an entry with an unknown id behind an entry whose -or-later was rewritten"),
+ "C15-w5m2": ("strings.Trim instead of TrimPrefix strips a '+' at the very end of the expression", "a rewritten id, the caller's string ending in '+', an unknown id in between"),
 }
 
 def status(r):
